@@ -136,7 +136,7 @@ class Recorder:
         return getattr(self._gen, name)
 
 
-def make_calc(forces):
+def make_calc(forces, dtype="float64"):
     import numpy as np
     from ase.calculators.calculator import Calculator, all_changes
 
@@ -145,7 +145,8 @@ def make_calc(forces):
 
         def __init__(self, f):
             super().__init__()
-            self.f = np.array(f, dtype=float)
+            # machine-learned potentials hand out single-precision forces: finite forces are finite forces
+            self.f = np.array(f, dtype=dtype)
 
         def calculate(self, atoms=None, properties=("energy",), system_changes=all_changes):
             super().calculate(atoms, properties, system_changes)
@@ -166,7 +167,7 @@ def build(case):
     atoms = Atoms(case["symbols"], positions=np.array(case["positions"], dtype=float))
     if case.get("masses") is not None:
         atoms.set_masses(case["masses"])
-    atoms.calc = make_calc(case["forces"])
+    atoms.calc = make_calc(case["forces"], case.get("fdtype", "float64"))
     delta = case["delta"]
     if isinstance(delta, list):
         delta = np.array(delta, dtype=float)
@@ -178,6 +179,10 @@ def build(case):
         fb.masses_scaling_power = float(pw["value"])
     elif pw["kind"] == "npfloat":
         fb.masses_scaling_power = np.float64(pw["value"])
+    elif pw["kind"] == "int":
+        fb.masses_scaling_power = int(pw["value"])
+    elif pw["kind"] == "npint":
+        fb.masses_scaling_power = np.int64(pw["value"])
     elif pw["kind"] == "array":
         fb.masses_scaling_power = np.array(pw["value"], dtype=float)
     elif pw["kind"] == "dict":
@@ -213,7 +218,7 @@ def build(case):
 def power_array(case, natoms):
     """masses_scaling_power per coordinate, as the property text reads it (independent of the model)"""
     pw = case["power"]
-    if pw["kind"] in ("float", "npfloat"):
+    if pw["kind"] in ("float", "npfloat", "int", "npint"):
         return [float(pw["value"])] * (3 * natoms)
     if pw["kind"] == "array":
         return [float(x) for row in pw["value"] for x in row]
@@ -264,6 +269,12 @@ class FBStep(common.Suite):
             if rounding:
                 mix += "r"
             forces = [[self.force(rng, rng.choice(mix)) for _ in range(3)] for _ in range(nat)]
+            fdtype = "float32" if rng.random() < 0.15 else "float64"
+            if fdtype == "float32":
+                import numpy as _np
+
+                # single-precision forces: the values themselves are made exactly representable (and finite) in float32
+                forces = [[float(_np.float32(max(-3e38, min(3e38, x)))) for x in row] for row in forces]
             if rng.random() < 0.5:
                 delta = 10.0 ** rng.uniform(-3, 0)
             else:
@@ -273,6 +284,8 @@ class FBStep(common.Suite):
                 power = {"kind": "default", "value": 0.25}
             elif r < 0.45:
                 power = {"kind": rng.choice(["float", "npfloat"]), "value": rng.choice([0.0, 1.0, 0.5, rng.random()])}
+                if rng.random() < 0.25:   # the powers 0 and 1 written as integers (Python or numpy)
+                    power = {"kind": rng.choice(["int", "npint"]), "value": rng.choice([0, 1])}
             elif r < 0.75:
                 power = {"kind": "array", "value": [[rng.choice([0.0, 1.0, rng.random()]) for _ in range(3)] for _ in range(nat)]}
             else:
@@ -293,6 +306,7 @@ class FBStep(common.Suite):
                 "seed": rng.randint(1, 2**31 - 1),
                 "inject": rng.choice([0, 0, 0.02, 0.2]),
                 "stubborn": rng.choice([0, 0, 0, 0, 18, 40]),
+                "fdtype": fdtype,
                 "via": "run" if rng.random() < 0.2 else "step",
             }
 
@@ -491,7 +505,7 @@ class FBStep(common.Suite):
             a = abs(g)
             cats.add("z" if a == 0 else "r" if a < 1e-9 else "c" if a >= GMAX else "n")
         dk = "arr" if isinstance(case["delta"], list) else "scal"
-        pk = {"npfloat": "float", "default": "float"}.get(case["power"]["kind"], case["power"]["kind"])
+        pk = {"npfloat": "float", "default": "float", "npint": "int"}.get(case["power"]["kind"], case["power"]["kind"])
         return f"g={''.join(sorted(cats))}|d={dk}|p={pk}|{case['via']}"
 
 
